@@ -1,6 +1,7 @@
-import PysnarkModel.Lemmas.PyTotalOps
+import PysnarkModel.Lemmas.PyTotalExp
 /-!
-# C05 at program level, totality: `&|^`, division, powers, shifts; `binopV_total`
+# C05 at program level, totality: `&|^`, division, powers, shifts (public and secret exponent /
+count); `binopV_total`
 -/
 set_option linter.unusedSimpArgs false
 namespace Pysnark
@@ -130,9 +131,9 @@ def BinOp.cmp? : BinOp → Option Cmp
   | .ge => some .ge
   | _ => none
 
-theorem cmpOk_of_dom {p : Int} {bl : Nat} {op : BinOp} {c : Cmp} {ba bb : Bool} {x y : Int}
+theorem cmpOk_of_dom {p : Int} {bl : Nat} {op : BinOp} {c : Cmp} {ba bb sb : Bool} {x y : Int}
     (hc : op.cmp? = some c)
-    (hd : pyDomBin p bl op ba bb x y = true) :
+    (hd : pyDomBin p bl op ba bb sb x y = true) :
     pyCmpOk p bl c x y ∧ (ba = true → y = 0 ∨ y = 1) ∧ (bb = true → x = 0 ∨ x = 1) := by
   cases op <;> simp only [BinOp.cmp?, reduceCtorEq, Option.some.injEq] at hc <;> subst hc <;>
     simp only [pyDomBin, Bool.and_eq_true, Bool.or_eq_true, Bool.not_eq_true', fitsAbs_iff, nzModP_iff,
@@ -148,7 +149,7 @@ theorem cmpOk_of_dom {p : Int} {bl : Nat} {op : BinOp} {c : Cmp} {ba bb : Bool} 
 theorem binopV_total {s : St} {op : BinOp} {a b : Val} {pa pb pv : PyVal} (hk : PyOk s) (hP : PrimeP s)
     (ha : ValRef a pa) (hb : ValRef b pb) (hx : pyExclBin s.p op a b = none)
     (hgap : pyGapBin op a b = none) (hpy : pyBin op pa pb = .ok pv)
-    (hd : pyDomBin s.p s.bitlength op pa.isBool pb.isBool a.num b.num = true) :
+    (hd : pyDomBin s.p s.bitlength op pa.isBool pb.isBool b.isLc a.num b.num = true) :
     Ok (binopV op a b) s := by
   obtain ⟨sa, sb⟩ := pyGapBin_sc hgap
   obtain ⟨na, ba, la⟩ := ha.sc sa
@@ -235,36 +236,65 @@ theorem binopV_total {s : St} {op : BinOp} {a b : Val} {pa pb pv : PyVal} (hk : 
     split at hpy
     · cases hpy
     · rename_i y0
-      have hdd : b.num ≤ 300 := by simpa [pyDomBin] using hd
-      cases a <;> cases b <;> simp only [pyGapBin, reduceCtorEq] at hgap
-      rename_i x n
-      simp only [Val.num_int] at y0 hdd
-      simp only [powV, y0, not_lt.mpr hdd, if_false]
-      obtain ⟨r, s', h⟩ := powLN_total x n.toNat s
-      exact Ok.bind h (Ok.pure _ _)
+      cases b with
+      | int n =>
+        have hdd : n ≤ 300 := by
+          simp only [pyDomBin, Val.isLc, Bool.false_eq_true, if_false] at hd; exact of_decide_eq_true hd
+        cases a <;> simp only [pyGapBin, reduceCtorEq] at hgap
+        rename_i x
+        simp only [Val.num_int] at y0
+        simp only [powV, y0, not_lt.mpr hdd, if_false]
+        obtain ⟨r, s', h⟩ := powLN_total x n.toNat s
+        exact Ok.bind h (Ok.pure _ _)
+      | lc e =>
+        have hdd := inBits_iff.mp (by
+          simp only [pyDomBin, Val.isLc, Val.num_int, Val.num_lc] at hd; simpa using hd : inBits s.bitlength e.value = true)
+        cases a <;> simp only [pyGapBin, reduceCtorEq] at hgap <;> simp only [powV] <;>
+          exact Ok.bind' (powLL_total hg hP hdd.1 hdd.2) (fun _ _ _ => Ok.pure _ _)
+      | _ => cases a <;> simp [pyGapBin] at hgap
   case lshift =>
     simp only [pyBinInt] at hpy
     split at hpy
     · cases hpy
     · rename_i y0
-      have hdd : b.num ≤ 4096 := by simpa [pyDomBin] using hd
-      cases a <;> cases b <;> simp only [pyGapBin, reduceCtorEq] at hgap
-      rename_i x n
-      simp only [Val.num_int] at y0 hdd
-      simp only [lshiftV, lshiftLV, not_lt.mpr hdd, if_false]
-      refine Ok.bind (a := x.mulI (2 ^ n.toNat)) (s1 := s) ?_ (Ok.pure _ _)
-      unfold lshiftLI
-      simp only [y0, if_false]
+      cases b with
+      | int n =>
+        have hdd : n ≤ 4096 := by
+          simp only [pyDomBin, Val.isLc, Bool.false_eq_true, if_false] at hd; exact of_decide_eq_true hd
+        cases a <;> simp only [pyGapBin, reduceCtorEq] at hgap
+        rename_i x
+        simp only [Val.num_int] at y0
+        simp only [lshiftV, lshiftLV, not_lt.mpr hdd, if_false]
+        refine Ok.bind (a := x.mulI (2 ^ n.toNat)) (s1 := s) ?_ (Ok.pure _ _)
+        unfold lshiftLI
+        simp only [y0, if_false]
+      | lc e =>
+        have hdd := inBits_iff.mp (by
+          simp only [pyDomBin, Val.isLc, Val.num_int, Val.num_lc] at hd; simpa using hd : inBits s.bitlength e.value = true)
+        cases a <;> simp only [pyGapBin, reduceCtorEq] at hgap <;> simp only [lshiftV] <;>
+          exact lshiftLV_lc_total hg hP hdd.1 hdd.2
+      | _ => cases a <;> simp [pyGapBin] at hgap
   case rshift =>
     simp only [pyBinInt] at hpy
     split at hpy
     · cases hpy
     · rename_i y0
-      have hdd := inBits_iff.mp (by simpa [pyDomBin] using hd : inBits s.bitlength a.num = true)
-      cases a <;> cases b <;> simp only [pyGapBin, reduceCtorEq] at hgap
-      simp only [Val.num_int] at y0
-      simp only [rshiftV, rshiftLV]
-      exact Ok.bind' (rshiftLI_total (not_lt.mp y0) hg hdd.1 hdd.2) (fun _ _ _ => Ok.pure _ _)
+      cases b with
+      | int n =>
+        have hdd := inBits_iff.mp (by
+          simp only [pyDomBin, Val.isLc, Val.num_int, Val.num_lc] at hd; simpa using hd : inBits s.bitlength a.num = true)
+        cases a <;> simp only [pyGapBin, reduceCtorEq] at hgap
+        simp only [Val.num_int] at y0
+        simp only [rshiftV, rshiftLV]
+        exact Ok.bind' (rshiftLI_total (not_lt.mp y0) hg hdd.1 hdd.2) (fun _ _ _ => Ok.pure _ _)
+      | lc e =>
+        have hdd : 0 ≤ e.value ∧ e.value ≤ s.bitlength := by
+          simp only [pyDomBin, Val.isLc, if_true, Bool.and_eq_true] at hd
+          exact ⟨of_decide_eq_true hd.1, of_decide_eq_true hd.2⟩
+        have hw := powWraps_of_excl_r hx
+        cases a <;> simp only [pyGapBin, reduceCtorEq] at hgap <;> simp only [rshiftV] <;>
+          exact rshiftLV_lc_total hk hP hw hdd.1 hdd.2
+      | _ => cases a <;> simp [pyGapBin] at hgap
   case band =>
     obtain ⟨x1, x2⟩ := pyExclBin_bw (w := .and) rfl hx
     simp only [pyDomBin, Bool.and_eq_true, Bool.or_eq_true, Bool.not_eq_true'] at hd
